@@ -164,8 +164,8 @@ KANI.update({
                        what="every family, every bit pattern of length/ratio/angle: number of handles, their bounds ([0.01,len], [0.1,ratio], [pi/6,pi/2]), which cell each writes, parameters without a handle keep their bits, written values stay in range"),
     "k_cell_from_family": dict(props=["C08", "C04"], kind="complete", fn="cell.rs Cell2::from_family",
                                what="initial ratio 1, angle pi/3 for Hexagonal and pi/2 otherwise, length as given, family recorded"),
-    "k_clone_cell": dict(props=["C10"], kind="complete", fn="cell.rs impl Clone for Cell2", what="a clone holds equal bits in fresh cells: arbitrary writes through the clone leave the original bit-identical"),
-    "k_clone_site": dict(props=["C10"], kind="complete", fn="site.rs impl Clone for OccupiedSite", what="a cloned site holds equal bits in fresh cells and the same multiplicity"),
+    "k_clone_cell": dict(props=["C10", "C04", "C08"], kind="complete", fn="cell.rs impl Clone for Cell2", what="a clone holds equal bits in fresh cells: arbitrary writes through the clone leave the original bit-identical"),
+    "k_clone_site": dict(props=["C10", "C04", "C08"], kind="complete", fn="site.rs impl Clone for OccupiedSite", what="a cloned site holds equal bits in fresh cells and the same multiplicity"),
     "k_site_basis": dict(props=["C08"], kind="complete", fn="site.rs OccupiedSite::get_basis", what="handles x,y in [-1/2,1/2], orientation in [0, 2pi/rot]; each writes only its own cell; written values stay in range"),
 })
 
@@ -224,7 +224,7 @@ PROPS["C02"] = dict(
 )
 PROPS["C04"] = dict(
     level="other", units=["geom"], lemmas=["sym-commute"],
-    kani=["k_tables_%s_%d" % (g, k) for g, n in _GROUPS.items() for k in range(n)] + ["k_tables_label_%s" % g for g in _GROUPS] + ["k_cell_dof", "k_cell_from_family"],
+    kani=["k_tables_%s_%d" % (g, k) for g, n in _GROUPS.items() for k in range(n)] + ["k_tables_label_%s" % g for g in _GROUPS] + ["k_cell_dof", "k_cell_from_family", "k_clone_cell", "k_clone_site"],
     explanation="Deductive chain: (1) placement k = wrap(g_k * T(site)) with linear part g_k * Rot (Verus, C15 clauses); (2) to_cartesian_isometry keeps the linear part and maps the translation by the cell matrix C (Verus); "
                 "(3) the tables are the ITA general positions with the ITA crystal family (Kani, complete); (4) the cell angle is a free parameter only for Monoclinic cells and non-hexagonal cells start at pi/2 (Kani, complete, all bit patterns) "
                 "so cos t = 0 is invariant for the mirror/glide groups; (5) z3: diag(+-1,+-1) commutes with C when it is +-I or cos t = 0, hence the Cartesian operation (M, C t_g) is an isometry mapping placement k onto placement k' "
@@ -266,7 +266,7 @@ PROPS["C03"] = dict(
                "convergence error of the truncated sum for the uncut potential"],
 )
 PROPS["C08"] = dict(
-    level="proof", units=["opt", "state", "geom"], kani=["k_basis_set_reset", "k_cell_dof", "k_cell_from_family", "k_site_basis"] + ["k_tables_label_%s" % g for g in _GROUPS], lemmas=[],
+    level="proof", units=["opt", "state", "geom"], kani=["k_basis_set_reset", "k_cell_dof", "k_cell_from_family", "k_site_basis", "k_clone_cell", "k_clone_site"] + ["k_tables_label_%s" % g for g in _GROUPS], lemmas=[],
     explanation="Verus proves on the real get_degrees_of_freedom / get_basis / generate_basis (both state kinds) that a valid state yields at least one handle, each with the bounds of the property statement "
                 "([0.01, length], [0.1, ratio], [pi/6, pi/2] only for oblique cells, [-1/2,1/2], [0, 2pi/rot]) and the current value inside them; on the real optimiser loop that bounds never change and every value stays inside "
                 "its bounds at every step and at both exits (inv.wf, exit*.held), and that the final assert (defined score) cannot fail. Kani proves the same bounds, the frame (a parameter without a handle keeps its bits: the cell stays in its family) "
